@@ -96,6 +96,9 @@ C["C06"]["text"]+=" Family D: every list of <= 4/5 entries over 9 leaves sharing
 C["C06"]["tech"]+="; deviation-bounded enumeration of the underlying writer's answers (short write, Interrupted)"
 C["C08"]["text"]+=" Valid xorbs of 1000..8192 chunks around the parser's 1152-chunk batch and its multiples must be accepted by both validators; crafted well-formed objects whose chunks unpack to 2^32 bytes (with and without footer) must be rejected without a panic. Forged stored chunks whose two length fields disagree come with a footer rebuilt for the lax reading. Thorough only: a lazily produced footer-less stream with one chunk more (107 374 182 empty chunks, 859 MB) than a footer's 32-bit section offsets can describe."
 C["C18"]["text"]+=" Expiry pairs: two exports (kinds, validities, one or two originals, grace) side by side in one directory, every instant around either expiry and either end of grace, judged per export (scan, new manager before and after cleanup, deletion)."
+C["C11"]["text"]+=" Family F11: the store already holds what this client uploads (another client with a shard cache of its own stored it); the upload must still be recorded, so that the client's own repeat session transfers nothing."
+C["C10"]["text"]+=" The consolidation menu holds a xorbs-only shard without lookup tables (footer counts 0)."
+C["C01"]["text"]+=" C01x also runs the concurrent scenario [abc,de,(empty)] under one upload permit."
 C["C09"]["text"]+=" Every shard of up to 12 records is also built with every record added twice, and with a different record first replaced under each key: same bytes, shard_file_size() = serialized length."
 C["C10"]["text"]+=" The family holds one file under three segmentations x all flag sets (acceptable merged records = one side's segments with that side's verification); thresholds include u64::MAX; the size estimate of in-memory union/difference results must equal the serialized size."
 C["C10"]["tech"]=C["C10"]["tech"].replace("4 thresholds","5 thresholds incl. u64::MAX")
